@@ -112,7 +112,9 @@ pub fn long_sjis_string() -> BoxedStrategy<String> {
 /// strings for archives: a small fixed pool (so that repeats and label/string collisions happen)
 /// mixed with fresh random strings
 pub fn archive_string() -> BoxedStrategy<String> {
-    let pool: Vec<String> = ["", "a", "b", "ab", "b\u{FF71}", "MID_\u{FF71}", "\u{FF83}\u{FF7D}\u{FF84}", "Count", "Info", "\u{8868}", "\u{30BD}\\", "x|y", "\u{3042}\u{3044}", "same", "zz", "\u{0080}"]
+    let pool: Vec<String> = ["", "a", "b", "ab", "b\u{FF71}", "MID_\u{FF71}", "\u{FF83}\u{FF7D}\u{FF84}", "Count", "Info", "\u{8868}", "\u{30BD}\\", "x|y", "\u{3042}\u{3044}", "same", "zz", "\u{0080}",
+        // proper endings and beginnings of the strings above (pools that share tails or heads of strings must keep them apart)
+        "\u{FF7D}\u{FF84}", "\u{FF84}", "\u{3044}", "y", "\\", "\u{653B}\u{6483}1", "1", "MID_", "sam"]
         .iter()
         .map(|s| s.to_string())
         .filter(|s| is_sjis_lossless(s))
